@@ -7,7 +7,7 @@ TEXT = ("A single-instance property: the decisive evidence is the computation â€
         "YAML and the result is compared byte for byte (version comment excluded), then a copy of the tree is rebuilt with the regenerated file and regenerates "
         "again (2 generations quick, 4 thorough). Lean adds: fixpoint_stable (one reproducing generation implies all later ones), shipped_wiring/verbose_steps "
         "(the wiring read from the checked-in file has the resolver/factory/step/rule order the YAML declares and every other theorem assumes), and the model "
-        "compiles the repository's own configuration to the same Output as the real compiler.")
+        "compiles the repository's own configuration to the same Output as the real compiler. yaml_declares_wiring: the wiring read from the checked-in gontainer.go (go/ast) equals, service by service (constructor, dependency arguments in order, tags, decorators), the wiring declared by the YAML files as decoded and merged by the real code â€” both tables regenerated, equality kernel-checked. Regeneration writes over an existing longer copy of the file, as `make self-compile` does.")
 TECHNIQUE = "computation (regenerate + byte diff over generations) + Lean 4 theorems over the wiring table regenerated from the checked-in file + model-vs-implementation compile of the self configuration"
 LEAN_PROPS = ["C19"]
 TRUSTED = ["go build of the scratch copy", "byte equality is computed, not proved"]
